@@ -52,8 +52,11 @@ META = dict(
          'whole-message fixpoints E(D(E(D(b)))) = E(D(b)) on the corpus and E(D(b)) = b on generated messages, model re-encode tied to '
          'the implementation bytes; oracle evaluated on the implementation alone with exact rationals.',
     technique='Lean 4 theorems (integer arithmetic, omega/ring-free case analysis over the primitives) + checked model/implementation correspondence + exact-rational oracle',
-    note='Theorems are element-level (state transformer of one field); the walk-level round trip is covered by the correspondence '
-         '(generated messages and corpus), not by a theorem. Values whose exact scaled value is within 2^-40 of a tie are compared '
+    note='Element-level theorems (state transformer of one field) in Props/C03.lean; the walk-level round trip of whole templates '
+         '(encode ; decode = canonical values, decode ; encode ; decode fixpoint, per subset and for whole data sections; '
+         'Props/C03Walk.lean, generic simulation theorem of Lemmas/Sim.lean) is stated for the CHECKED encoder, i.e. under the '
+         'decidable side conditions that every field is at most 64 bits wide and every replication factor / bitmap entry reads '
+         'back as supplied; the compressed analogue is in Props/C05Walk.lean. Values whose exact scaled value is within 2^-40 of a tie are compared '
          'leniently. Floats given to a scale-0 element are outside the quantifier (integers where the effective scale is 0).',
 )
 
